@@ -28,6 +28,88 @@ TRUSTED: Dict[str, str] = {
 }
 
 
+_EDGE_CACHE: Dict[str, Any] = {}
+
+
+def _regex_edges(pat: str) -> Optional[Tuple[int, Optional[List[Tuple[int, int]]], Optional[List[Tuple[int, int]]]]]:
+    """(minimal length, ranges of possible first characters, ranges of possible last characters) of the
+    language of ``pat`` -- a sound over-approximation computed from sre_parse; None if not understood."""
+    if pat in _EDGE_CACHE:
+        return _EDGE_CACHE[pat]
+    import sre_parse
+    import sre_constants as sc
+
+    def cls(arg: Any) -> Optional[List[Tuple[int, int]]]:
+        out = []
+        for o2, a2 in arg:
+            if o2 == sc.LITERAL:
+                out.append((a2, a2))
+            elif o2 == sc.RANGE:
+                out.append((a2[0], a2[1]))
+            else:
+                return None
+        return out
+
+    def item(op: Any, arg: Any, rev: bool) -> Optional[Tuple[int, Optional[List[Tuple[int, int]]]]]:
+        """(min length, edge set) of one item; edge set None = unknown (anything)."""
+        if op == sc.LITERAL:
+            return 1, [(arg, arg)]
+        if op == sc.IN:
+            c = cls(arg)
+            return 1, c
+        if op == sc.MAX_REPEAT or op == sc.MIN_REPEAT:
+            lo, hi, sub = arg
+            r = seq(list(sub), rev)
+            if r is None:
+                return None
+            return r[0] * lo, r[1]
+        if op == sc.SUBPATTERN:
+            return seq(list(arg[3]), rev)
+        if op == sc.BRANCH:
+            mins, sets = [], []
+            for alt in arg[1]:
+                r = seq(list(alt), rev)
+                if r is None:
+                    return None
+                mins.append(r[0])
+                sets.append(r[1])
+            if any(s is None for s in sets) or any(m == 0 for m in mins):
+                return min(mins), None
+            return min(mins), [x for s in sets for x in s]  # type: ignore
+        return None
+
+    def seq(items: List[Any], rev: bool) -> Optional[Tuple[int, Optional[List[Tuple[int, int]]]]]:
+        total = 0
+        edge: Optional[List[Tuple[int, int]]] = []
+        open_edge = True
+        for op, arg in (reversed(items) if rev else items):
+            r = item(op, arg, rev)
+            if r is None:
+                return None
+            mn, st = r
+            if open_edge:
+                if st is None:
+                    edge = None
+                elif edge is not None:
+                    edge = edge + st
+                if mn > 0:
+                    open_edge = False
+            total += mn
+        if open_edge:
+            edge = None  # the whole sequence may be empty: the edge character comes from the context
+        return total, edge
+
+    try:
+        items = list(sre_parse.parse(pat))
+        a = seq(items, False)
+        b = seq(items, True)
+        res = None if a is None or b is None else (a[0], a[1], b[1])
+    except Exception:
+        res = None
+    _EDGE_CACHE[pat] = res
+    return res
+
+
 def _is_ws(c: Any) -> Any:
     return z3.Or(*[c == w for w in WS])
 
@@ -222,6 +304,15 @@ class Builtins:
                 return z3.BoolVal(v.cls is not None and v.cls.is_subclass_of(cls))
             return z3.BoolVal(False)
         if isinstance(k, VModuleRef) and isinstance(k.module, str):
+            short = k.module.split(".")[-1]
+            if short in ("Sequence", "Iterable", "Collection", "Sized"):
+                return z3.BoolVal(isinstance(v, (VList, VTuple, VStr)))
+            if short in ("Mapping", "MutableMapping"):
+                return z3.BoolVal(isinstance(v, VDict))
+            if k.module.startswith("ast.") and self.engine.ast_model is not None:
+                if isinstance(v, VExt) and v.kind.startswith("ast."):
+                    return self.engine.ast_model[0](self, v, short)
+                return z3.BoolVal(False)
             if isinstance(v, VExt):
                 return z3.BoolVal(v.kind.split(".")[-1] == k.module.split(".")[-1])
             if isinstance(v, VExc):
@@ -258,6 +349,19 @@ class Builtins:
 
     def hex_value(self, v: VStr, node: Any, fr: Frame) -> Any:
         """int(s, 16) for a symbolic s whose length is concrete on this path (≤ 8)."""
+        us = v.units()
+        if us is not None and 0 < len(us) <= 8:
+            def dig0(c: Any) -> Any:
+                return z3.If(z3.And(c >= 48, c <= 57), c - 48, z3.If(z3.And(c >= 97, c <= 102), c - 87, c - 55))
+
+            def ishex0(c: Any) -> Any:
+                return z3.Or(z3.And(c >= 48, c <= 57), z3.And(c >= 97, c <= 102), z3.And(c >= 65, c <= 70))
+            self.ob(z3.And(*[ishex0(z3.IntVal(u) if isinstance(u, int) else u) for u in us]), "value", node, fr,
+                    "int(s, 16): s consists of hex digits")
+            acc0: Any = z3.IntVal(0)
+            for u in us:
+                acc0 = acc0 * 16 + dig0(z3.IntVal(u) if isinstance(u, int) else u)
+            return acc0
         t = v.t
         ln = z3.simplify(z3.Length(t))
         n = None
@@ -424,6 +528,22 @@ class Builtins:
         return s
 
     def bi_sorted(self, args, kwargs, node, fr) -> V:
+        src = args[0]
+        if isinstance(src, VList) and not src.is_concrete():
+            # some permutation of the list: same length, elements of the same type (order unknown)
+            hint = self.path.fresh_name("$sorted")
+            ea = src.elem_ann
+            sample = src.tail[0] if src.tail else None
+            ln = src.length()
+
+            perm = z3.Function(hint + ".perm", z3.IntSort(), z3.IntSort())
+
+            def get(idx: Any) -> V:
+                # the i-th element of the sorted list is *some* element of the original list
+                k = perm(idx)
+                self.path.add_fact(z3.And(k >= 0, k < ln))
+                return self.list_get(src, k, node, fr)
+            return VList([], base_len=ln, base_get=get, elem_ann=ea)
         items = self.concrete_items(args[0])
         if "key" in kwargs:
             raise Unsupported("sorted with key")
@@ -521,12 +641,90 @@ class Builtins:
         if s.py is not None:
             import re
             return z3.BoolVal(re.fullmatch(pat.py, s.py) is not None)
-        re_t = self.engine.regex_to_z3(pat.py)
-        if re_t is None:
-            f = z3.Function("re_fullmatch_" + str(abs(hash(pat.py)) % 10 ** 8), SEQ, z3.BoolSort())
-            self.note_assumption(f"re.fullmatch({pat.py!r}, ·) uninterpreted")
-            return f(s.t)
-        return z3.InRe(s.t, re_t)
+        us = s.units()
+        if us is not None:
+            direct = self.regex_on_units(pat.py, us)
+            if direct is not None:
+                return direct
+        # a string without known structure: membership in a fixed regular language is an uninterpreted
+        # predicate of the string (congruence is all the code under contract needs; z3's regex theory on
+        # Seq(Int) times out next to other sequence constraints)
+        import hashlib
+        f = z3.Function("re_fullmatch_" + hashlib.md5(pat.py.encode()).hexdigest()[:10], SEQ, z3.BoolSort())
+        self.note_assumption(f"re.fullmatch({pat.py!r}, s) on a structure-less string is an uninterpreted predicate of s "
+                             "(plus: minimal length and the classes of its first and last character)")
+        m = f(s.t)
+        edges = _regex_edges(pat.py)
+        if edges is not None:
+            minlen, first, last = edges
+            n = z3.Length(s.t)
+            facts = [n >= minlen]
+            if minlen >= 1:
+                def inset(c: Any, rngs: List[Tuple[int, int]]) -> Any:
+                    return z3.Or(*[(c == a) if a == b else z3.And(c >= a, c <= b) for a, b in rngs])
+                if first is not None:
+                    facts.append(inset(s.t[0], first))
+                if last is not None:
+                    facts.append(inset(s.t[n - 1], last))
+            self.path.add_fact(z3.Implies(m, z3.And(*facts)))
+        return m
+
+    def regex_on_units(self, pat: str, us: List[Any]) -> Optional[Any]:
+        """fullmatch of a fixed-length pattern (literals / character classes with exact repetition counts)
+        against a string whose characters are known one by one: a conjunction of character tests."""
+        import sre_parse
+        import sre_constants as sc
+        try:
+            items = list(sre_parse.parse(pat))
+        except Exception:
+            return None
+        tests: List[Any] = []  # one entry per position: list of (lo, hi) ranges
+
+        def cls(arg: Any) -> Optional[List[Tuple[int, int]]]:
+            out = []
+            for o2, a2 in arg:
+                if o2 == sc.LITERAL:
+                    out.append((a2, a2))
+                elif o2 == sc.RANGE:
+                    out.append((a2[0], a2[1]))
+                else:
+                    return None
+            return out
+
+        for op, arg in items:
+            if op == sc.LITERAL:
+                tests.append([(arg, arg)])
+            elif op == sc.IN:
+                c = cls(arg)
+                if c is None:
+                    return None
+                tests.append(c)
+            elif op == sc.MAX_REPEAT:
+                lo, hi, sub = arg
+                if lo != hi or len(sub) != 1:
+                    return None
+                o2, a2 = sub[0]
+                if o2 == sc.LITERAL:
+                    c2: Optional[List[Tuple[int, int]]] = [(a2, a2)]
+                elif o2 == sc.IN:
+                    c2 = cls(a2)
+                else:
+                    return None
+                if c2 is None:
+                    return None
+                tests.extend([c2] * lo)
+            else:
+                return None
+        if len(tests) != len(us):
+            return z3.BoolVal(False)
+        conj = []
+        for u, rngs in zip(us, tests):
+            if isinstance(u, int):
+                if not any(a <= u <= b for a, b in rngs):
+                    return z3.BoolVal(False)
+                continue
+            conj.append(z3.Or(*[(u == a) if a == b else z3.And(u >= a, u <= b) for a, b in rngs]))
+        return z3.And(*conj) if conj else z3.BoolVal(True)
 
     def bi_re_fullmatch(self, args, kwargs, node, fr) -> V:
         pat = self.as_str(args[0], node, fr)
